@@ -716,7 +716,7 @@ def models(draw, feats=(), max_classes=5, doc_type=None):
         c['params'] = ([p for p in c['params'] if 'default' not in p]
                        + [p for p in c['params'] if 'default' in p])
         if 'extra' in feats and draw(st.integers(0, 3)) == 0:
-            c['extra'] = draw(st.sampled_from(['required', 'default']))
+            c['extra'] = draw(st.sampled_from(['required', 'default', 'default_first']))
         if 'abstract' in feats and draw(st.integers(0, 4)) == 0:
             c['abstract'] = draw(st.sampled_from(['abc', 'method']))
         if 'unreg' in feats and draw(st.integers(0, 5)) == 0:
@@ -1002,6 +1002,37 @@ def mutate(draw, spec, t, n=None, tags=False, kinds=None):
     return t, applied
 
 
+def respell_numbers(draw, t):
+    """Other spellings of the same float for plain float scalars: what repr(),
+    json.dumps and '%e' write (1e-05, 1E-05, +1e-05, 1.e-05, 1.000000e-05), a
+    leading '+', a bare trailing dot. The value does not change."""
+    from yv import spec12
+    sites = [(p, s) for p, s in T.subtrees(t)
+             if s[0] == 's' and not s[2] and not s[3] and spec12.is_float(s[1])]
+    if not sites or draw(st.integers(0, 2)) > 0:
+        return t
+    for p, s in sites:
+        try:
+            x = float(s[1])
+        except ValueError:
+            continue
+        if x != x or x in (float('inf'), float('-inf')):
+            continue
+        r = repr(x)
+        cands = [r, r.upper(), '%e' % x if float('%e' % x) == x else r,
+                 ('+' + r) if x >= 0 and r[0] != '-' else r, s[1]]
+        if 'e' in r and '.' not in r:
+            cands.append(r.replace('e', '.e'))
+        if r.endswith('.0'):
+            cands.append(r[:-1])                # '5.'
+        if r.startswith('0.') and len(r) > 2:
+            cands.append(r[1:])                 # '.5'
+        new = draw(st.sampled_from(cands))
+        if spec12.is_float(new) and float(new) == x:
+            t = T.set_at(t, p, T.S(new))
+    return t
+
+
 @st.composite
 def doc_for(draw, spec, tags=False, hard=False, mutations=True):
     """(tree, origin) - a document for the model: a projected value of the
@@ -1012,6 +1043,7 @@ def doc_for(draw, spec, tags=False, hard=False, mutations=True):
         if v is not None:
             t = project(v, spec)
             origin = 'value'
+            t = respell_numbers(draw, t)
             if mutations and (c >= 3 or tags):
                 t, ops = draw(mutate(spec, t, tags=tags))
                 origin = 'mutated:' + '+'.join(ops)
